@@ -206,44 +206,76 @@ def lift_group_table_by_value(facts):
         return None, None, ['enum WallpaperGroups not found']
     variants = list(adt['variants'])
     pname = b.local_name(1) or 'arg1'
-    sx = SymEx(facts)
-    try:
-        outs = sx.run(b, [SYM(pname)])
-    except Exception as ex:      # noqa: BLE001
-        return None, None, ['the group table function could not be evaluated: %s' % str(ex)[:80]]
-    if not outs or sx.aborted:
-        return None, None, ['the group table function is not loop-free']
-    table, problems = {}, []
-    for o in outs:
-        vs = _family_of_pc(o.pc, variants, who=pname)
-        r = sx.deep(o.st, o.ret)
-        for _ in range(2):
-            if isinstance(r, tuple) and r[0] == 'struct' and r[2] is not None and r[2][0] in ('Ok', 'Some'):
-                r = sfield(r, '0')
-        if not (isinstance(r, tuple) and r[0] == 'struct' and r[1].endswith('wallpaper::WallpaperGroup')):
-            problems.append('variants %s do not yield a WallpaperGroup value' % sorted(vs))
+    def symbolic_runs():
+        sx = SymEx(facts)
+        try:
+            outs = sx.run(b, [SYM(pname)])
+        except Exception:      # noqa: BLE001
+            return None
+        if not outs or sx.aborted:
+            return None
+        return [(_family_of_pc(o.pc, variants, who=pname), sx, o) for o in outs]
+
+    def concrete_runs():
+        # a table indexed by `name as usize`, a lookup by discriminant: evaluate once per variant with the variant as argument
+        from .sym import STRUCT
+        runs = []
+        ety = facts.norm(b.local_ty(1)).replace('&', '').strip()
+        for i, v in enumerate(variants):
+            sx = SymEx(facts)
+            try:
+                outs = sx.run(b, [STRUCT(ety, (v, i), [])])
+            except Exception:      # noqa: BLE001
+                return None
+            if len(outs) != 1 or sx.aborted:
+                return None
+            runs.append(({v}, sx, outs[0]))
+        return runs
+
+    def build(runs):
+        table, problems = {}, []
+        for vs, sx, o in runs:
+            r = sx.deep(o.st, o.ret)
+            for _ in range(2):
+                if isinstance(r, tuple) and r[0] == 'struct' and r[2] is not None and r[2][0] in ('Ok', 'Some'):
+                    r = sfield(r, '0')
+            if not (isinstance(r, tuple) and r[0] == 'struct' and r[1].endswith('wallpaper::WallpaperGroup')):
+                problems.append('variants %s do not yield a WallpaperGroup value' % sorted(vs))
+                continue
+            nm, fam, ops = sfield(r, 'name'), sfield(r, 'family'), sfield(r, 'wyckoff_str')
+            rec = {'name': nm[1] if isinstance(nm, tuple) and nm[0] == 'str' else None,
+                   'family': fam[2][0] if isinstance(fam, tuple) and fam[0] == 'struct' and fam[2] is not None else None,
+                   'ops': None, 'line': b.span.get('line')}
+            if rec['name'] is None:
+                problems.append('variants %s: name is not a string constant' % sorted(vs))
+            if rec['family'] is None:
+                problems.append('variants %s: family is not a CrystalFamily constant' % sorted(vs))
+            items = sx.as_seq(o.st, ops)
+            if items is not None and all(isinstance(x, tuple) and x[0] == 'str' for x in items):
+                rec['ops'] = [x[1] for x in items]
+            else:
+                problems.append('variants %s: wyckoff_str is not a list of string constants' % sorted(vs))
+            for v in sorted(vs):
+                if v in table and table[v] != rec:
+                    problems.append('variant %s reaches two different groups' % v)
+                table[v] = rec
+        for v in variants:
+            if v not in table:
+                problems.append('variant %s yields no group' % v)
+        return table, problems
+    best = None
+    for mk in (symbolic_runs, concrete_runs):
+        runs = mk()
+        if runs is None:
             continue
-        nm, fam, ops = sfield(r, 'name'), sfield(r, 'family'), sfield(r, 'wyckoff_str')
-        rec = {'name': nm[1] if isinstance(nm, tuple) and nm[0] == 'str' else None,
-               'family': fam[2][0] if isinstance(fam, tuple) and fam[0] == 'struct' and fam[2] is not None else None,
-               'ops': None, 'line': b.span.get('line')}
-        if rec['name'] is None:
-            problems.append('variants %s: name is not a string constant' % sorted(vs))
-        if rec['family'] is None:
-            problems.append('variants %s: family is not a CrystalFamily constant' % sorted(vs))
-        items = sx.as_seq(o.st, ops)
-        if items is not None and all(isinstance(x, tuple) and x[0] == 'str' for x in items):
-            rec['ops'] = [x[1] for x in items]
-        else:
-            problems.append('variants %s: wyckoff_str is not a list of string constants' % sorted(vs))
-        for v in sorted(vs):
-            if v in table and table[v] != rec:
-                problems.append('variant %s reaches two different groups' % v)
-            table[v] = rec
-    for v in variants:
-        if v not in table:
-            problems.append('variant %s yields no group' % v)
-    return b.path, table, problems
+        table, problems = build(runs)
+        if not problems:
+            return b.path, table, problems
+        if best is None:
+            best = (table, problems)
+    if best is None:
+        return None, None, ['the group table function could not be evaluated']
+    return b.path, best[0], best[1]
 
 
 def lift_group_table(facts):
